@@ -1683,12 +1683,18 @@ class DNA(symbolic.Object):
         other._userdata[k] = v    # pylint: disable=protected-access
     other._cloneable_userdata_keys = set(self._cloneable_userdata_keys)  # pylint: disable=protected-access
 
-    # Remove none-clonable meta-data.
-    metadata = {}
-    for k, v in self.metadata.items():
-      if k in self._cloneable_metadata_keys:
-        metadata[k] = v
-    other.rebind(metadata=metadata)
+    # Remove none-clonable meta-data. (`other.metadata` is the copy of
+    # `self.metadata` already -- deep for a deep clone, with the flags of the
+    # original -- so the other keys are removed from it, instead of building a
+    # new dict from the values of the original: a sealed DNA could not be
+    # cloned that way, and a deep clone shared the leaves of those values.)
+    dropped = [k for k in other.metadata.keys()
+               if k not in self._cloneable_metadata_keys]
+    if dropped:
+      with symbolic.as_sealed(False):
+        other.metadata.rebind(
+            {k: pg_typing.MISSING_VALUE for k in dropped},
+            raise_on_no_change=False)
     other._cloneable_metadata_keys = set(self._cloneable_metadata_keys)  # pylint: disable=protected-access
     return other
 
